@@ -45,7 +45,7 @@ for d in sorted(glob.glob("/verif/seeded/*/")):
         r = sh(f"cd /verif && ./run {c} quick")
         sh("git -C /repo checkout -- . && git -C /repo clean -fdq")
         viol = [l for l in r.stdout.splitlines() if l.startswith("VIOLATION")]
-        fps = sorted({l.split("fingerprint=")[1].split(" ")[0] for l in r.stderr.splitlines() if l.startswith("violation:")})
+        fps = sorted({l.split("fingerprint=")[1].split(" ")[0] for l in r.stderr.splitlines() if l.startswith("violation")})
         res[c] = {"exit": r.returncode, "violations": len(viol), "fingerprints": fps}
     meta = {"seed": name, "breaks_property": prop, "needs_to_manifest": needs,
             "verified": "in a scratch worktree: go build ./... ok, go test -vet=off -count=1 ./... passes with the change, demo (seed/demo) exits non-zero with the change and 0 without it (tools/seedcheck.sh)",
